@@ -316,7 +316,7 @@ def check_match_loop(repo, rep, tier):
         rep.instance(rid, desc)
         for r, key, msg in viols:
             kind = key.split("|")[1]
-            if kind in ("double-fill", "spurious"):
+            if kind in ("double-fill", "spurious", "nonterminating"):
                 rep.violation(rid, f"match-loop|{kind}", msg, {"ordering": desc})
     rep.floor(rid, 500)
 
@@ -324,11 +324,11 @@ def check_match_loop(repo, rep, tier):
 def run(repo: Repo, rep, tier: str):
     rep.exhaustive = True
     rep.assume("backtest mode; exchange ledgers / trade store / position are event sinks while Order methods are interpreted")
-    check_transitions(repo, rep)
-    check_status_writers(repo, rep)
-    check_trade_record(repo, rep)
-    check_registry(repo, rep)
-    check_match_loop(repo, rep, tier)
+    rep.guarded(check_transitions, repo, rep)
+    rep.guarded(check_status_writers, repo, rep)
+    rep.guarded(check_trade_record, repo, rep)
+    rep.guarded(check_registry, repo, rep)
+    rep.guarded(check_match_loop, repo, rep, tier)
 
 
 CLAIM = {
